@@ -161,8 +161,10 @@ CharArray MaybeGzipped::uncompress_into_buffer(size_t limit) {
              "To read " + path() + " first uncompress it.");
       GG(gzungetc)(next_char, (gzFile)file_);
       size_t old_size = mem.size();
-      mem.resize(2 * old_size);
-      size_t n = gzread_checked(mem.data() + old_size, old_size);
+      // old_size is 0 if the last member of a multi-member file is empty (ISIZE=0)
+      size_t extra = old_size > 65536 ? old_size : 65536;
+      mem.resize(old_size + extra);
+      size_t n = gzread_checked(mem.data() + old_size, extra);
       mem.set_size(old_size + n);
     }
   }
